@@ -114,3 +114,35 @@ func (a *Analyzer) StoreField(st *State, p Term, pt types.Type, name string, v T
 
 // Nil returns the nil value of a pointer-like type.
 func Nil(t types.Type) Term { return NilT{Typ: t} }
+
+
+// Mark records an opaque fact in st (inherited by all states forked from it); Marked tests it.
+func (a *Analyzer) NewMark() int { return a.id() }
+
+func Mark(st *State, id int) {
+	if st.BoolFacts == nil {
+		st.BoolFacts = map[int]bool{}
+	}
+	st.BoolFacts[id] = true
+}
+
+func Marked(st *State, id int) bool { return st.BoolFacts[id] }
+
+// FieldPtr returns a pointer to field `name` of the struct p points to, with its pointer type.
+func (a *Analyzer) FieldPtr(p Term, pt types.Type, name string) (*Ptr, types.Type) {
+	ptr, ok := p.(*Ptr)
+	if !ok {
+		return nil, nil
+	}
+	elem := pt.Underlying().(*types.Pointer).Elem()
+	stt, ok := elem.Underlying().(*types.Struct)
+	if !ok {
+		return nil, nil
+	}
+	for i := 0; i < stt.NumFields(); i++ {
+		if stt.Field(i).Name() == name {
+			return &Ptr{Obj: ptr.Obj, Path: ptr.Path + pathField(stt, elem, i)}, types.NewPointer(stt.Field(i).Type())
+		}
+	}
+	return nil, nil
+}
